@@ -357,28 +357,36 @@ def nodeMatches (r : Registry) (id : Nat) (node : Name) : Bool :=
 def tombstonePM (r : Registry) (pm : PMap) (node : Name) (now : Int) : PMap :=
   pm.map (fun e => if nodeMatches r e.1 node then (e.1, ⟨true, now⟩) else e)
 
-/-- Wildcard path of `FindProducers("topic", "*", "")`: one (arbitrary — here: first in list
-order; in Go: map order) registration per peer id. NOT deterministic in the implementation;
-outside the modelled input domain (see `Op.modelled`). -/
-def wildcardTargets : DB → List Nat → List (Key × Nat)
-  | [], _ => []
-  | e :: m, seen =>
-    if e.1.cat = .topic && e.1.sub = [] then
-      ((e.2.map (·.1)).filter (fun id => !seen.contains id)).map (fun id => (e.1, id))
-        ++ wildcardTargets m (seen ++ e.2.map (·.1))
-    else wildcardTargets m seen
+/-! ### The wild-card path `FindProducers("topic", "*", "")`
 
-def tombstoneOne (r : Registry) (db : DB) (k : Key) (id : Nat) (node : Name) (now : Int) : DB :=
-  match mget db k with
-  | none => db
-  | some pm =>
-    if nodeMatches r id node then
-      mset db k (pm.map (fun e => if e.1 = id then (e.1, ⟨true, now⟩) else e))
-    else db
+It walks `registrationMap` in Go map order and keeps, for every peer id, the `*Producer` of the
+FIRST topic registration in which it meets that id. Which topic that is, is a run-time choice
+`pick : peer id → topic`, constrained only by `PickValid` (see `Nsq.Model.RegistryStar`): the
+result of `POST /topic/tombstone?topic=*` is a SET, one element per valid pick. -/
+
+/-- the resolved run-time choice of `FindProducers("topic","*","")` -/
+abbrev Pick := Nat → Name
+
+/-- topics peer `id` is registered for (the `Topics` list of `/nodes`) -/
+def topicsOf (db : DB) (id : Nat) : List Name :=
+  ((lookupRegistrations db id).filter (fun k => isMatch k .topic star [])).map (·.key)
+
+/-- the pick of an iteration in list order (ONE of the possible outcomes) -/
+def firstPick (db : DB) : Pick := fun id => (topicsOf db id).headD []
+
+/-- `p.Tombstone()` on the picked producer `id` (stored under topic `key`) if its node string matches -/
+def starTombVal (r : Registry) (pick : Pick) (node : Name) (now : Int) (key : Name) (id : Nat) (tb : Tomb) : Tomb :=
+  if pick id = key && nodeMatches r id node then ⟨true, now⟩ else tb
+
+def starTombPM (r : Registry) (pick : Pick) (node : Name) (now : Int) (k : Key) (pm : PMap) : PMap :=
+  if isMatch k .topic star [] then pm.map (fun pe => (pe.1, starTombVal r pick node now k.key pe.1 pe.2)) else pm
+
+/-- `POST /topic/tombstone?topic=*`: every picked producer whose node string matches is tombstoned -/
+def tombstoneStarDB (r : Registry) (pick : Pick) (node : Name) (now : Int) : DB :=
+  r.db.map (fun e => (e.1, starTombPM r pick node now e.1 e.2))
 
 def tombstoneDB (r : Registry) (t node : Name) (now : Int) : DB :=
-  if t = star then
-    (wildcardTargets r.db []).foldl (fun d kid => tombstoneOne r d kid.1 kid.2 node now) r.db
+  if t = star then tombstoneStarDB r (firstPick r.db) node now
   else
     match mget r.db (topicKey t) with
     | none => r.db
@@ -526,7 +534,9 @@ def run (r : Registry) : List Op → Registry
   | op :: ops => run (step r op).1 ops
 
 /-- The only operation whose effect depends on Go's map iteration order:
-`POST /topic/tombstone?topic=*`. Everything else is deterministic and covered. -/
+`POST /topic/tombstone?topic=*`. `step` resolves it in list order (one allowed outcome);
+`StepSet` / `RunSet` (`Nsq.Model.RegistryStar`) give the whole set of allowed outcomes, so the
+theorems of `Nsq.Props.C14Star` need no `modelled` hypothesis. -/
 def Op.modelled : Op → Bool
   | .tombstone a _ => a.topic ≠ some star
   | _ => true
